@@ -44,6 +44,10 @@ def ma_world(rng, n_agents=None, numeric=None, extra_random=True) -> gen.W:
               "eff": ["and", ["lit", "?l"]]})
     A.append({"name": "finish", "params": [("?a", "ag"), ("?i", "item")], "pre": ["and", ["holding", "?a", "?i"], ["open"]],
               "eff": ["and", ["done", "?i"]]})
+    # an enabler that may be redundant (adds a fact that can already hold), next to its consumers finish / toggle
+    A.append({"name": "announce", "params": [("?a", "ag")], "pre": ["and"], "eff": ["and", ["open"]]})
+    A.append({"name": "inspect", "params": [("?a", "ag"), ("?l", "loc")], "pre": ["and", ["at", "?a", "?l"], ["lit", "?l"]],
+              "eff": ["and", ["not", ["lit", "?l"]]]})
     A.append({"name": "toggle", "params": [("?a", "ag")], "pre": ["and", ["free", "?a"]],
               "eff": ["and", ["when", ["open"], ["not", ["open"]]], ["when", ["not", ["open"]], ["open"]]]})
     if numeric:
